@@ -558,7 +558,13 @@ dcomplex complex_double_get(const basic s)
 
 char *basic_dumps(const basic s, unsigned long *size)
 {
-    std::string str = basic_rcp(s)->dumps();
+    std::string str;
+    try {
+        str = basic_rcp(s)->dumps();
+    } catch (...) {
+        *size = 0;
+        return nullptr;
+    }
     *size = str.length();
     auto cc = new char[*size];
     str.copy(cc, *size);
